@@ -65,6 +65,26 @@ FAULT_CLASSES = {
     "IndexError": InjectedIndexError,
 }
 
+def _more_fault_classes():
+    """One injected subclass for every builtin Exception type that admits it (arbitrary exception types)."""
+    import builtins
+
+    for name, cls in sorted(vars(builtins).items()):
+        if not (isinstance(cls, type) and issubclass(cls, Exception)) or issubclass(cls, Warning) or name in FAULT_CLASSES:
+            continue
+        if name in ("BaseExceptionGroup", "ExceptionGroup", "EnvironmentError", "IOError"):
+            continue
+        try:
+            sub = type("Injected" + name, (InjectedFault, cls), {"__module__": __name__})
+            sub(("probe",))
+        except Exception:  # noqa: BLE001 — layout conflict or constructor signature: skip this type
+            continue
+        FAULT_CLASSES[name] = sub
+        globals()["Injected" + name] = sub
+
+
+_more_fault_classes()
+
 CUR = None  # the current World
 
 
